@@ -124,6 +124,9 @@ def archive(case, d):
         for nm, txt in (('.hidden', 'h'), ('notes.txt~', 'n'), ('._x', 'x')):
             with a.datadir.open_file(nm, 'w') as fh:
                 fh.write(txt)
+        # ... an empty directory and a dangling symbolic link are part of the directory too
+        os.mkdir(os.path.join(base, 'emptydir'))
+        os.symlink('nowhere', os.path.join(base, 'dangling'))
     before = snapshot(base)
     res = attempt(lambda: str(a.archive(filepath=dest, compressiontype=case['ctype'], overwrite=case['overwrite'])))
     out = dict(res=res[:2], array_unchanged=snapshot(base) == before, target_exists=os.path.exists(target))
